@@ -150,7 +150,7 @@ def run_scenario(scn: dict, backend: str = "asyncio") -> dict:
     async def caller(c: int, lim: Any) -> None:
         cancelled_exc = anyio.get_cancelled_exc_class()
         tasks[c] = asyncio.current_task()
-        with anyio.CancelScope() as sc:
+        with anyio.CancelScope(shield=bool(cfg[c - 1].get("osh"))) as sc:
             scopes[c] = sc
             var.set(10 + c)
             with lock:
